@@ -1,6 +1,6 @@
 use log::trace;
 use std::cmp::{Ordering, min, max};
-use std::collections::HashMap;
+use std::collections::{HashMap, HashSet};
 use std::fmt;
 
 use super::{VariableName, VariableType};
@@ -454,6 +454,9 @@ pub struct DegreeEnvironment {
     // bounds of the degree of each variable.
     degree_ranges: HashMap<VariableName, DegreeRange>,
     var_types: HashMap<VariableName, VariableType>,
+    // Local variables that have been assigned to, whether or not the degree of
+    // the assigned value is known.
+    assigned: HashSet<VariableName>,
 }
 
 impl DegreeEnvironment {
@@ -487,6 +490,15 @@ impl DegreeEnvironment {
     }
 
     /// Returns true if the given variable is a local variable.
+    pub fn set_assigned(&mut self, var: &VariableName) {
+        self.assigned.insert(var.clone());
+    }
+
+    #[must_use]
+    pub fn is_assigned(&self, var: &VariableName) -> bool {
+        self.assigned.contains(var)
+    }
+
     #[must_use]
     pub fn is_local(&self, var: &VariableName) -> bool {
         matches!(self.var_types.get(var), Some(VariableType::Local))
